@@ -83,5 +83,7 @@ def run(ctx):
                 "sequential recursor happens exactly at 0, and the SequentialRecursor never asks for a switch.")
     nrd = elock.run_recursor_depth(ctx, F)
     ctx.floor("E-REC.depth", "recursor obligations", nrd, 6)
+    nse = efreelist.check_sentinel(ctx, F)
+    ctx.floor("E-FREELIST.sentinel", "sentinel constants", nse, 7)
     ctx.not_decided = ("equivalence to a sequential execution over schedules, lost updates in the lock-free lists, "
                        "deadlock freedom beyond lock order (condvar protocols): behavioural, not claimed")
